@@ -197,6 +197,15 @@ def run(rep: Report, tier: str) -> None:
         for (t, d) in sel:
             jobs.append((t, d, ops))
     rep.exhaustive = tier != "quick"
+    # histories the specification does NOT contain (Param.tla `Enabled`): pickling / torch.save of a module AFTER a library transform.
+    # They are in the property's quantifier; on the pinned tree they raise.  Judged here explicitly (known finding), not left out.
+    for ops in (("Transform", "PickleModule"), ("Transform", "SaveLoadModule"), ("DeepCopyModule", "Transform", "PickleModule")):
+        r_ = replay_history(("weight", 1, ops))
+        rep.case(("pickle_after_transform", ops))
+        if r_["err"]:
+            rep.violation(f"history {list(ops)}: {r_['err'][:160]} -- the tags cannot survive an operation that raises", {"history": list(ops), "err": r_["err"][:200]}, key="kf:pickle_after_transform")
+        elif not r_["obs"][-1].get("tags", False):
+            rep.violation(f"history {list(ops)}: tags lost", {"history": list(ops)}, key="tags_lost:pickle_after_transform")
     with mp.get_context("fork").Pool(14) as pool:
         results = pool.map(replay_history, jobs, chunksize=64)
     traces = []
